@@ -146,6 +146,7 @@ func runC13(c *harness.Ctx) {
 	t := c.T
 	mode := t.Draw("mode", 5)
 	modes := []string{"real-real", "real-client/ref-server", "ref-client/real-server", "reject-no-magic", "padding-boundary"}
+	steerPads(c, obfsref.O3HalfPadding+1)
 	c.Info["mode"] = modes[mode]
 	c.Feature("mode-" + modes[mode])
 	link := c.Net.NewLink("c", "s")
@@ -388,6 +389,7 @@ func runC14(c *harness.Ctx) {
 	t := c.T
 	mode := t.Draw("mode", 4)
 	modes := []string{"real-real", "real-client/ref-server", "ref-client/real-server", "reject"}
+	steerPads(c, obfsref.O2MaxPadding+1)
 	c.Info["mode"] = modes[mode]
 	c.Feature("mode-" + modes[mode])
 	link := c.Net.NewLink("c", "s")
